@@ -141,6 +141,33 @@ theorem run_deref_refines_list (l : List α) (ops : List (Op α)) :
   rw [SDeque.view_ofList] at h1 h2
   exact ⟨s', h1, by rw [h3.deref, h2]⟩
 
+/-- The reference's returned values are produced operation by operation: the results of
+the first `k` operations of a sequence are the first `k` results of the whole sequence. -/
+theorem runRef_take (l : List α) (ops : List (Op α)) (k : Nat) :
+    (runRef l (ops.take k)).1 = (runRef l ops).1.take k := by
+  induction ops generalizing l k with
+  | nil => simp [runRef]
+  | cons o ops ih =>
+    cases k with
+    | zero => simp [runRef]
+    | succ k =>
+      simp only [List.take_succ_cons, runRef]
+      rw [ih]
+
+/-- **After every operation**, with the prefix explicit (the property's "after every
+operation" rather than "at the end of every sequence"): for every sequence `ops` and every
+`k`, the state reached after the first `k` operations exists (no panic so far), the values
+returned so far are the first `k` values the reference returns over the WHOLE sequence,
+the checked `Deref` slice is the reference's contents at that point, and the space bound
+holds there. -/
+theorem after_every_operation (l : List α) (ops : List (Op α)) (k : Nat) :
+    ∃ s', run (SDeque.ofList l) (ops.take k) = some ((runRef l ops).1.take k, s') ∧
+      s'.deref = some (runRef l (ops.take k)).2 ∧
+      s'.consumed ≤ s'.container.length / 2 := by
+  obtain ⟨s', h1, h2, h3⟩ := run_spec (SDeque.inv_ofList l) (ops.take k)
+  rw [SDeque.view_ofList] at h1 h2
+  exact ⟨s', by rw [h1, runRef_take], by rw [h3.deref, h2], h3.half⟩
+
 end Woodpile.Props.C15
 
 namespace Woodpile.Props.C15
